@@ -34,6 +34,7 @@ class ProbeRec:
         self.got_op = []  # op index of each
         self.overrides = []
         self.stages = []
+        self.pending = []
         self.changes = []  # trace lengths at which this probe was (de)activated
         self.expect_exit_error = False
         self.enter_error = None
@@ -179,7 +180,16 @@ class Engine:
                 rec.obj = ptera.probing(*strs, env=env, overridable=True)
                 how = op["how"]
                 fas = op["sels"][0]["focus"].get("as") or op["sels"][0]["focus"]["var"]
-                rec.obj.override(lambda d, how=how, fas=fas: apply_override(how, d.get(fas), d, real=True))
+                if op.get("filtered"):
+                    # the conditional form users write: a filter in front of override();
+                    # a declined binding never reaches the override subscriber at all
+                    from ptera.utils import ABSENT
+
+                    rec.obj.filter(
+                        lambda d, how=how, fas=fas: apply_override(how, d.get(fas), d, real=True) is not ABSENT
+                    ).override(lambda d, how=how, fas=fas: apply_override(how, d.get(fas), d, real=True))
+                else:
+                    rec.obj.override(lambda d, how=how, fas=fas: apply_override(how, d.get(fas), d, real=True))
             elif kind in ("tweak", "rewrite"):
                 from ptera.selector import select
 
@@ -212,6 +222,11 @@ class Engine:
             return ["mk-error", canon(e)]
 
         def on_next(data, rec=rec):
+            if rec.spec.get("raw") and self.sc.get("late_read", True):
+                # raw mode hands out Capture objects: read them only when the
+                # operation is over, as a consumer that keeps them would
+                rec.pending.append(data)
+                return
             ev = canon_event(data)
             rec.got.append(ev)
             rec.got_op.append(self.opi)
@@ -536,6 +551,14 @@ class Engine:
                 sim.reach("gc_collect")
         for vn in order:
             sim.finish(vn, res[vn])
+        for rec in self.probes.values():
+            for data in rec.pending:
+                ev = canon_event(data)
+                rec.got.append(ev)
+                rec.got_op.append(self.opi)
+                if any(isinstance(v, dict) and has_absent(v.get("values", [])) for v in ev.values()):
+                    self.violate("C16.no_absent", {"probe": rec.id, "sel": rec.strs, "event": ev})
+            rec.pending.clear()
         hi = len(sim.tr.events)
         self.note_generator(op, n_acts_before)
         ob = {
